@@ -30,7 +30,7 @@
 //! Oracle (on the implementation, no model): every task gets exactly one result by the end of the
 //! case; a backend reply delivered to a task carries that task's id; after the backend has been
 //! silent for several timeouts no task is left unanswered; no request is written on more than
-//! 1 + MAX_BACKEND_RETRY connections (known finding F08b).
+//! 1 + MAX_BACKEND_RETRY connections (F08b, fixed by /repo commit 0e64416: a hit is a violation).
 use futures::{Sink, SinkExt, Stream, TryStreamExt};
 use serde_json::json;
 use std::collections::{BTreeMap, VecDeque};
@@ -1634,12 +1634,12 @@ fn oracle(case: u64, cfg: &Cfg, script: &[Op], out: &CaseOut, st: &mut Stats) {
             st.oracle_failure(
                 case,
                 &format!(
-                    "C08: request {} was written on {} connections (> 1 + MAX_BACKEND_RETRY = {}) without an error reply in between",
+                    "C08: request {} was written on {} connections (> 1 + MAX_BACKEND_RETRY = {}): the retry budget does not bound the retries (F08b regression)",
                     id,
                     c.len(),
                     MAX_BACKEND_RETRY + 1
                 ),
-                "F08b",
+                "",
                 replay.clone(),
             );
             break;
